@@ -347,6 +347,9 @@ pub struct UpdCase {
 	pub header: Vec<Vec<u8>>,
 	pub rows: Vec<Vec<Cell>>,
 	pub tile: Vec<u8>,
+	/// how the data file is written: bit 0 CRLF line ends, bit 1 every cell quoted, bit 2 blank lines between
+	/// records, bit 3 no line end after the last record (never changes the table)
+	pub csv_style: u8,
 }
 
 /// the value a CSV cell denotes (numbers, true/false, text) – the documented inference, written
@@ -393,29 +396,103 @@ fn csv_quote(s: &[u8]) -> Vec<u8> {
 }
 
 fn csv_text(c: &UpdCase) -> Vec<u8> {
+	let eol: &[u8] = if c.csv_style & 1 != 0 { b"\r\n" } else { b"\n" };
 	let mut o = vec![];
-	let line = |o: &mut Vec<u8>, cells: Vec<&[u8]>| {
-		for (i, c) in cells.iter().enumerate() {
+	let mut records: Vec<Vec<&[u8]>> = vec![c.header.iter().map(|h| h.as_slice()).collect()];
+	for r in &c.rows {
+		records.push(r.iter().map(|c| c.text.as_slice()).collect());
+	}
+	let n = records.len();
+	for (k, cells) in records.iter().enumerate() {
+		for (i, cell) in cells.iter().enumerate() {
 			if i > 0 {
 				o.push(b',');
 			}
-			o.extend(csv_quote(c));
+			if c.csv_style & 2 != 0 {
+				// quote everything (quoted numbers, quoted empty cells)
+				o.push(b'"');
+				for b in cell.iter() {
+					if *b == b'"' {
+						o.push(b'"');
+					}
+					o.push(*b);
+				}
+				o.push(b'"');
+			} else {
+				o.extend(csv_quote(cell));
+			}
 		}
-		o.push(b'\n');
-	};
-	line(&mut o, c.header.iter().map(|h| h.as_slice()).collect());
-	for r in &c.rows {
-		line(&mut o, r.iter().map(|c| c.text.as_slice()).collect());
+		if k + 1 < n || c.csv_style & 8 == 0 {
+			o.extend_from_slice(eol);
+			if c.csv_style & 4 != 0 {
+				o.extend_from_slice(eol);
+			}
+		}
 	}
 	o
 }
 
+/// a plain RFC-4180 reader, only used to rebuild a case from its replay line
+fn parse_csv_plain(b: &[u8]) -> Vec<Vec<Vec<u8>>> {
+	let mut rows = vec![];
+	let mut row: Vec<Vec<u8>> = vec![];
+	let mut cell: Vec<u8> = vec![];
+	let mut i = 0;
+	let mut quoted = false;
+	let mut any = false;
+	while i < b.len() {
+		let c = b[i];
+		if quoted {
+			if c == b'"' && b.get(i + 1) == Some(&b'"') {
+				cell.push(b'"');
+				i += 1;
+			} else if c == b'"' {
+				quoted = false;
+			} else {
+				cell.push(c);
+			}
+		} else if c == b'"' && cell.is_empty() {
+			quoted = true;
+			any = true;
+		} else if c == b',' {
+			row.push(std::mem::take(&mut cell));
+			any = true;
+		} else if c == b'\n' {
+			if any || !cell.is_empty() {
+				row.push(std::mem::take(&mut cell));
+				if !(row.len() == 1 && row[0].is_empty()) {
+					rows.push(std::mem::take(&mut row));
+				}
+				row.clear();
+			}
+			any = false;
+		} else if c != b'\r' {
+			cell.push(c);
+		}
+		i += 1;
+	}
+	if any || !cell.is_empty() {
+		row.push(cell);
+		if !(row.len() == 1 && row[0].is_empty()) {
+			rows.push(row);
+		}
+	}
+	rows
+}
+
 fn case_line(c: &UpdCase) -> String {
-	let cell = |c: &Cell| match &c.value {
-		SValue::Double(bits) => format!("{}~{}~{}", hex(&c.text), hex(bits), hex(&c.value.display())),
-		_ => hex(&c.text),
-	};
-	let rows = if c.rows.is_empty() { ".".to_string() } else { c.rows.iter().map(|r| r.iter().map(cell).collect::<Vec<_>>().join(",")).collect::<Vec<_>>().join(";") };
+	// what std's f64 parser / formatter make of the double-looking cells (external to the model)
+	let mut dbl: Vec<String> = vec![];
+	for r in &c.rows {
+		for cell in r {
+			if let SValue::Double(bits) = &cell.value {
+				let e = format!("{}~{}~{}", hex(&cell.text), hex(bits), hex(&cell.value.display()));
+				if !dbl.contains(&e) {
+					dbl.push(e);
+				}
+			}
+		}
+	}
 	// display strings of the float values of the tile (f32/f64 formatting is external to the model)
 	let mut fmt: Vec<String> = vec![];
 	if let Some(t) = decode_tile(&c.tile) {
@@ -440,8 +517,8 @@ fn case_line(c: &UpdCase) -> String {
 		hex(&c.layer),
 		hex(&c.id_tiles),
 		hex(&c.id_data),
-		c.header.iter().map(|h| hex(h)).collect::<Vec<_>>().join(","),
-		rows,
+		hex(&csv_text(c)),
+		if dbl.is_empty() { ".".to_string() } else { dbl.join(",") },
 		if fmt.is_empty() { ".".to_string() } else { fmt.join(",") },
 		hex(&c.tile)
 	)
@@ -453,10 +530,8 @@ fn parse_case_line(line: &str) -> Option<UpdCase> {
 		return None;
 	}
 	let fl: Vec<bool> = t[1].chars().map(|c| c == '1').collect();
-	let cell = |s: &str| {
-		let text = unhex(s.split('~').next().unwrap());
-		cell_of(std::str::from_utf8(&text).unwrap())
-	};
+	let table = parse_csv_plain(&unhex(t[5]));
+	let cell = |b: &Vec<u8>| cell_of(std::str::from_utf8(b).unwrap_or("?"));
 	Some(UpdCase {
 		replace: fl[0],
 		remove: fl[1],
@@ -464,9 +539,10 @@ fn parse_case_line(line: &str) -> Option<UpdCase> {
 		layer: unhex(t[2]),
 		id_tiles: unhex(t[3]),
 		id_data: unhex(t[4]),
-		header: t[5].split(',').map(unhex).collect(),
-		rows: if t[6] == "." { vec![] } else { t[6].split(';').map(|r| r.split(',').map(cell).collect()).collect() },
+		header: table.first().cloned().unwrap_or_default(),
+		rows: table.iter().skip(1).map(|r| r.iter().map(cell).collect()).collect(),
 		tile: unhex(t[8]),
+		csv_style: 0,
 	})
 }
 
@@ -856,7 +932,7 @@ fn emit_paths(out: &mut Out, runner: &mut Runner, c: &UpdCase, rng: &mut Rng) {
 
 const NAMES: &[&str] = &["roads", "water", "pois", "Straße", "l"];
 const KEYS: &[&str] = &["id", "name", "kind", "pop", "höhe", "x"];
-const ID_TEXTS: &[&str] = &["a1", "b2", "1", "12", "-3", "true", "1.5", "zz", "0.5", "1.50", "18446744073709551615", "v1"];
+const ID_TEXTS: &[&str] = &["a1", "b2", "1", "12", "-3", "true", "1.5", "01", "1.0", "12 ", " 12", "012", "12.0", "+1", "-03", "TRUE", "1.50", "zz", "0.5", "1.50", "18446744073709551615", "v1"];
 const DATA_TEXTS: &[&str] = &["", "x", "Berlin", "12", "-7", "3.25", "true", "false", "a,b", "q\"q", "日本", "007", "-0", ".5", "1e5", "v2", " 1", "99999999999999999999", "-9223372036854775808", "-9223372036854775809", "18446744073709551616"];
 
 fn gen_opts(messy: bool, nan: bool) -> GenOpts {
@@ -876,6 +952,12 @@ fn gen_opts(messy: bool, nan: bool) -> GenOpts {
 			IValue::Float(0.5f32.to_le_bytes()),
 			IValue::UInt(u64::MAX),
 			IValue::Str(b"nomatch".to_vec()),
+			IValue::Str(b"01".to_vec()),
+			IValue::Str(b"12 ".to_vec()),
+			IValue::Str(b" 12".to_vec()),
+			IValue::Double(1.0f64.to_le_bytes()),
+			IValue::Float(12.0f32.to_le_bytes()),
+			IValue::SInt(1),
 		],
 		max_layers: 4,
 		max_features: 6,
@@ -923,6 +1005,7 @@ fn boundary_cases() -> (Vec<Vec<u8>>, Vec<UpdCase>) {
 				header: vec![b"key".to_vec(), b"new".to_vec()],
 				rows: vec![vec![cell_of("a1"), cell_of("x")], vec![cell_of("zz"), cell_of("12")]],
 				tile: b.clone(),
+				csv_style: flags,
 			});
 		}
 	}
@@ -955,10 +1038,10 @@ fn gen_update_case(rng: &mut Rng, messy: bool) -> UpdCase {
 	header.swap(0, idpos);
 	let mut rows = vec![];
 	for _ in 0..rng.below(9) {
-		let row: Vec<Cell> = (0..header.len()).map(|i| if i == idpos { cell_of(if rng.chance(5, 6) { *rng.pick(&ID_TEXTS[..7]) } else { *rng.pick(ID_TEXTS) }) } else { cell_of(*rng.pick(DATA_TEXTS)) }).collect();
+		let row: Vec<Cell> = (0..header.len()).map(|i| if i == idpos { cell_of(if rng.chance(5, 6) { *rng.pick(&ID_TEXTS[..14]) } else { *rng.pick(ID_TEXTS) }) } else { cell_of(*rng.pick(DATA_TEXTS)) }).collect();
 		rows.push(row);
 	}
-	UpdCase { replace: rng.chance(1, 2), remove: rng.chance(1, 2), include_id: rng.chance(1, 2), layer, id_tiles, id_data, header, rows, tile: encode_tile(&tile, &style) }
+	UpdCase { replace: rng.chance(1, 2), remove: rng.chance(1, 2), include_id: rng.chance(1, 2), layer, id_tiles, id_data, header, rows, tile: encode_tile(&tile, &style), csv_style: rng.below(16) as u8 }
 }
 
 fn prim_cases(rng: &mut Rng, n: usize) -> Vec<(String, String)> {
@@ -1029,6 +1112,7 @@ non-trivial: C11p every case; C11d valid tiles; C11u cases where the expected ou
 			match t[0] {
 				"C11p" if t.len() == 3 => emit_prim(&mut out, t[1], t[2]),
 				"C11d" if t.len() == 2 => emit_decode(&mut out, &unhex(t[1]), None),
+				"C11g" => crate::c11g::replay(&mut out, &t),
 				"C11csv" if t.len() == 2 => {
 					let a = crate::c11csv::real_table(&unhex(t[1]));
 					out.case(line, &a, true);
@@ -1049,6 +1133,8 @@ non-trivial: C11p every case; C11d valid tiles; C11u cases where the expected ou
 	for (op, arg) in prim_cases(&mut rng, args.n(400, 20000)) {
 		emit_prim(&mut out, &op, &arg);
 	}
+	// geometry command streams
+	crate::c11g::run_geom(&mut out, args, &mut rng);
 	// the CSV lexer
 	crate::c11csv::run_csv(&mut out, args, &mut rng);
 	// seed-independent boundary tiles
@@ -1085,6 +1171,7 @@ non-trivial: C11p every case; C11d valid tiles; C11u cases where the expected ou
 					header: vec![b"key".to_vec(), format!("k{}", n - 1).into_bytes(), b"brand_new".to_vec()],
 					rows: vec![vec![cell_of("0"), cell_of("x"), cell_of("1")], vec![cell_of("zz"), cell_of("12"), cell_of("")]],
 					tile: bytes.clone(),
+					csv_style: flags,
 				};
 				emit_update(&mut out, &mut runner, &c, TileCompression::Uncompressed, true);
 			}
